@@ -26,9 +26,6 @@ def mem (r : Rec) (p : Nat) : Prop := r.start ≤ p ∧ p < r.stop
 instance (r : Rec) (p : Nat) : Decidable (r.mem p) := by unfold mem; infer_instance
 end Rec
 
-/-- `u64::saturating_add` -/
-def satAdd (a b : Nat) : Nat := min (a + b) U64MAX
-
 /-- `(start..end).step_by(bin)`: std contract — `start, start+bin, …` while `< end` -/
 def stepPoints (s e bin : Nat) : List Nat := List.range' s ((e - s + bin - 1) / bin) bin
 
